@@ -29,6 +29,16 @@ Corollary goa_any_number_of_requests_race_free :
 Proof. intros P H. apply goa_request_path_race_free. now apply incl_sessions. Qed.
 Print Assumptions goa_any_number_of_requests_race_free.
 
+(* Isolation discipline: every write that request-phase code performs on a shared location
+   (plain, atomic, sync.Map / sync.Pool, opaque mutator calls) hits a location that
+   translate/c20/shared_writes.json classifies as memo table, monotone helper state or
+   request-private storage. A new "remember something from this request in shared state"
+   write — racy or not — makes this fail. It is a discipline check (it feeds memo_isolation
+   for the memo class), NOT a noninterference proof about values. *)
+Theorem goa_request_path_isolated : isolated fp_bodies fp_opaque_writes fp_write_classes.
+Proof. apply isolation_checker_sound; vm_compute; reflexivity. Qed.
+Print Assumptions goa_request_path_isolated.
+
 (* the instance is not vacuous: the extraction saw locations that do need a lock (the
    pattern cache, the sampler's window start) and found the mutex protecting each *)
 Example footprint_has_locked_locations :
